@@ -21,6 +21,7 @@ pub mod c18;
 pub mod c19;
 pub mod c20;
 pub mod lzcommon;
+pub mod prior;
 
 pub fn registry() -> Vec<Box<dyn DynProp>> {
     vec![
